@@ -20,10 +20,25 @@ CHECKS = {
          "Seeded search over histories of update/init/query requests (all refinement orders and invalid-request classes reachable, d<=5, lmin<=3, lmax-lmin<=4, <=40 requests; the (d,lmin,lmax) grid is walked systematically first). After every request the statement's invariants are evaluated, the per-subspace inclusion-exclusion sums for every level vector of the bounding box, and the closed-form scheme at every (re-)initialisation. Sampling, not proof: a clean batch is evidence about the explored histories.",
          "Trusted: the harness' own invariant code and numpy integer arithmetic. No stub: CombiScheme runs real code.",
          "DESIGN.md section 5, C01"),
+ "C03": ("dimwise_sim", "exploration",
+         "deterministic simulation: the real dimension-wise adaptive loop driven by a simulated environment (keyed adversarial benefit answers, arbitrary-per-point integrand), combination monitor after every evaluation",
+         "Seeded search over refinement histories (dim 1-4, versions 2/3/6/7/8, rebalancing and boundary on/off, margins, benefit answers with zeros/ties/single choices). After every evaluation every component grid is inspected through the public observation points: sorted 1-D point lists with the end points, dependence on (dimension, level) only, monotone growth, tensor structure, coefficient sum exactly 1 at every sparse-grid point, and reproduction of an arbitrary (hash-valued) function by the combined interpolant at every sparse-grid point. Sampling, not proof.",
+         "Trusted: harness monitors, the keyed-hash integrand, numpy. Stubs: integrand values, error-estimator answers, clock. Everything else is the repository's code.",
+         "DESIGN.md section 5, C03"),
+ "C04": ("dimwise_sim", "exploration",
+         "deterministic simulation: refinement histories driven by simulated benefit answers with analytic exactness probes carried as extra output components; probe monitor after every evaluation",
+         "Seeded search over refinement histories and strategy options; basis functions and random combinations of the initial (lmin,lmax) sparse-grid space (affine functions with the modified basis) are carried as extra components that never steer refinement, and their reported integrals and interpolated values are compared with analytic values after every evaluation. Known findings are keyed by oracle, version, whether a level raise / a rebalancing rotation touching the probe's support has happened, so any other loss of exactness is still a violation.",
+         "Trusted: analytic hat/linear integrals in simcore/env.py (R-hier pieces), rounding bound. Stubs as C03.",
+         "DESIGN.md section 5, C04"),
+ "C06": ("dimwise_sim", "exploration",
+         "deterministic simulation: the real refinement containers under adversarial benefit schedules (ties, zeros, single-interval, all-equal), structure monitor and split-set prediction (reference interval model) after every refine()",
+         "Seeded search over benefit schedules and options (dim 1-4, margin, rebalancing, safety factor, versions). After every refinement step: tiling without gaps/overlaps in ascending order, shared end-point levels, end points level 0, binary level tree (also after rebalancing), coarsening level = lmax - max level >= 0, lmax >= deepest level, and the set of split intervals equals the prediction {benefit >= margin * max benefit} computed from the benefits read before the step (children = two halves at the midpoint). Sampling, not proof.",
+         "Trusted: harness monitors. Stubs: error-estimator answers (the seam the property quantifies over), integrand values, clock.",
+         "DESIGN.md section 5, C06"),
 }
 
 _P = "claimed by DESIGN.md but the check is not built yet in this tree; listed here until its engine is registered"
-PENDING = {k: _P for k in ["C03", "C04", "C05", "C06", "C07", "C12", "C13", "C14", "C15", "C17", "C18", "C19"]}
+PENDING = {k: _P for k in ["C05", "C07", "C12", "C13", "C14", "C15", "C17", "C18", "C19"]}
 
 def main():
     checks = []
